@@ -3,6 +3,7 @@
 pub mod alphabet;
 pub mod entry;
 pub mod families;
+pub mod layout;
 pub mod msgs;
 pub mod names;
 pub mod seeds;
